@@ -15,12 +15,12 @@ captured future handles appear as `ref p`.
 namespace FpVerif.Fut
 
 abbrev W (α : Type) := α × List Event
-abbrev Pid := Nat
+
 
 /-- Programs that construct futures: exactly the primitives of future.go / future/future_op.go;
     every derived combinator is a Lean function producing an `FExpr` (below), mirroring its Go body. -/
 inductive FExpr where
-  | ref (p : Pid)                                             -- an existing future handle
+  | ref (p : Nat)                                             -- an existing future handle
   | successful (v : Val)                                      -- future.Successful
   | failed (e : Err)                                          -- future.Failed
   | successfulOf (e : FExpr)                                  -- Successful(h) where h is the handle of the future `e` builds (a future of a future)
@@ -34,40 +34,45 @@ inductive FExpr where
 
 /-- callbacks registered on a promise (the closures the library creates) -/
 inductive CB where
-  | flatMapA (k : Val → FExpr) (np : Pid)
-  | completeWith (np : Pid)
-  | transformA (f : Try Val → W (Try Val)) (np : Pid)
-  | transformWithA (k : Try Val → FExpr) (np : Pid)
-  | recoverWithA (d : Err → Bool) (k : Err → FExpr) (np : Pid)
-  | orFutureA (q : Pid) (np : Pid)
+  | flatMapA (k : Val → FExpr) (np : Nat)
+  | completeWith (np : Nat)
+  | transformA (f : Try Val → W (Try Val)) (np : Nat)
+  | transformWithA (k : Try Val → FExpr) (np : Nat)
+  | recoverWithA (d : Err → Bool) (k : Err → FExpr) (np : Nat)
+  | orFutureA (q : Nat) (np : Nat)
   | observe (id : Nat)                                        -- the harness's own OnComplete observer
 
 inductive Task where
   | cb (c : CB) (t : Try Val)
-  | applyT (f : Unit → W (Try Val)) (np : Pid)
+  | applyT (f : Unit → W (Try Val)) (np : Nat)
 
 structure Net where
-  status : Pid → Option (Try Val)
-  cbs : Pid → List CB
-  next : Pid
+  status : Nat → Option (Try Val)
+  cbs : Nat → List CB
+  next : Nat
   pool : List Task
   log : List Event
   /-- every `Complete` call so far: promise and whether it returned true -/
-  completes : List (Pid × Bool)
+  completes : List (Nat × Bool)
+  /-- ghost: the expression (over handles) each derived promise was created for; `ref p` for sources -/
+  spec : Nat → FExpr
 
 def Net.empty (nsrc : Nat) : Net :=
-  { status := fun _ => none, cbs := fun _ => [], next := nsrc, pool := [], log := [], completes := [] }
+  { status := fun _ => none, cbs := fun _ => [], next := nsrc, pool := [], log := [], completes := [],
+    spec := fun p => .ref p }
 
-def fresh (n : Net) : Pid × Net := (n.next, { n with next := n.next + 1 })
+/-- allocate a promise (`promise.New`), recording what it is for -/
+def fresh (sp : FExpr) (n : Net) : Nat × Net :=
+  (n.next, { n with next := n.next + 1, spec := fun q => if q = n.next then sp else n.spec q })
 
 /-- `OnComplete`: pending → remember the callback; completed → its task is queued at once. -/
-def onComplete (p : Pid) (c : CB) (n : Net) : Net :=
+def onComplete (p : Nat) (c : CB) (n : Net) : Net :=
   match n.status p with
   | some t => { n with pool := n.pool ++ [Task.cb c t] }
   | none => { n with cbs := fun q => if q = p then n.cbs p ++ [c] else n.cbs q }
 
 /-- `Promise.Complete`: first call wins, fires every registered callback (each becomes one task). -/
-def complete (p : Pid) (t : Try Val) (n : Net) : Net :=
+def complete (p : Nat) (t : Try Val) (n : Net) : Net :=
   match n.status p with
   | some _ => { n with completes := n.completes ++ [(p, false)] }
   | none =>
@@ -78,44 +83,44 @@ def complete (p : Pid) (t : Try Val) (n : Net) : Net :=
       completes := n.completes ++ [(p, true)] }
 
 /-- a future handle carried as a value (futures of futures: `Flatten`, `LiftM`) -/
-def handle (p : Pid) : Val := .tup [.str "fut", .int p]
-def unhandle : Val → Pid
+def handle (p : Nat) : Val := .tup [.str "fut", .int p]
+def unhandle : Val → Nat
   | .tup [.str "fut", .int p] => p.toNat
   | _ => 0
 
 /-- run a construction program: returns the handle of the future it yields -/
-def build : FExpr → Net → Pid × Net
+def build : FExpr → Net → Nat × Net
   | .ref p, n => (p, n)
-  | .successful v, n => let (np, n) := fresh n; (np, complete np (.success v) n)
-  | .failed e, n => let (np, n) := fresh n; (np, complete np (.failure e) n)
+  | .successful v, n => let (np, n) := fresh (.successful v) n; (np, complete np (.success v) n)
+  | .failed e, n => let (np, n) := fresh (.failed e) n; (np, complete np (.failure e) n)
   | .successfulOf e, n =>
     let (q, n) := build e n
-    let (np, n) := fresh n
+    let (np, n) := fresh (.successfulOf (.ref q)) n
     (np, complete np (.success (handle q)) n)
   | .logged evs e, n => build e { n with log := n.log ++ evs }
   | .flatMap e k, n =>
     let (p, n) := build e n
-    let (np, n) := fresh n
+    let (np, n) := fresh (.flatMap (.ref p) k) n
     (np, onComplete p (.flatMapA k np) n)
   | .transform e f, n =>
     let (p, n) := build e n
-    let (np, n) := fresh n
+    let (np, n) := fresh (.transform (.ref p) f) n
     (np, onComplete p (.transformA f np) n)
   | .transformWith e k, n =>
     let (p, n) := build e n
-    let (np, n) := fresh n
+    let (np, n) := fresh (.transformWith (.ref p) k) n
     (np, onComplete p (.transformWithA k np) n)
   | .recoverWith e d k, n =>
     let (p, n) := build e n
-    let (np, n) := fresh n
+    let (np, n) := fresh (.recoverWith (.ref p) d k) n
     (np, onComplete p (.recoverWithA d k np) n)
   | .orFuture e alt, n =>
     let (p, n) := build e n
     let (q, n) := build alt n
-    let (np, n) := fresh n
+    let (np, n) := fresh (.orFuture (.ref p) (.ref q)) n
     (np, onComplete p (.orFutureA q np) n)
   | .apply f, n =>
-    let (np, n) := fresh n
+    let (np, n) := fresh (.apply f) n
     (np, { n with pool := n.pool ++ [Task.applyT f np] })
 
 /-- the body of one task -/
@@ -144,7 +149,9 @@ def runTask (tk : Task) (n : Net) : Net :=
 /-- scheduler events -/
 inductive Ev where
   | run (i : Nat)                       -- run the i-th task of the pool
-  | src (p : Pid) (t : Try Val)         -- the environment completes source promise p
+  | src (p : Nat) (t : Try Val)         -- the environment completes source promise p
+  | mk (e : FExpr)                      -- the program constructs a new future from existing handles
+  | obs (p : Nat) (id : Nat)            -- the program registers its own OnComplete observer on p
 
 def step (n : Net) : Ev → Net
   | .run i =>
@@ -152,6 +159,8 @@ def step (n : Net) : Ev → Net
     | some tk => runTask tk { n with pool := n.pool.eraseIdx i }
     | none => n
   | .src p t => complete p t n
+  | .mk e => (build e n).2
+  | .obs p id => onComplete p (.observe id) n
 
 def runEvs (n : Net) (evs : List Ev) : Net := evs.foldl step n
 
@@ -162,17 +171,17 @@ def map (e : FExpr) (f : Val → W Val) : FExpr :=
   .flatMap e (fun v => let (r, evs) := f v; .logged evs (.successful r))
 
 /-- `future.Map2(a, b, f) = FlatMap(a, v1 => Map(b, v2 => f(v1, v2)))` — `b` is a captured handle -/
-def map2 (a b : Pid) (f : Val → Val → W Val) : FExpr :=
+def map2 (a b : Nat) (f : Val → Val → W Val) : FExpr :=
   .flatMap (.ref a) (fun v1 => map (.ref b) (fun v2 => f v1 v2))
 
-def zip (a b : Pid) : FExpr := map2 a b (fun x y => (.tup [x, y], []))
+def zip (a b : Nat) : FExpr := map2 a b (fun x y => (.tup [x, y], []))
 
 /-- `future.Flatten(opt) = FlatMap(opt, v => v)`; a future-valued value is a handle -/
 def flatten (e : FExpr) : FExpr := .flatMap e (fun v => .ref (unhandle v))
 
 /-- `future.LiftM(fa)(ta) = Flatten(Map(ta, fa))`: `Map` wraps the future `fa(v)` returns as a value,
     `Flatten` unwraps it again (three more task hops than `FlatMap(ta, fa)`). -/
-def liftM (fa : Val → FExpr) (ta : Pid) : FExpr :=
+def liftM (fa : Val → FExpr) (ta : Nat) : FExpr :=
   flatten (.flatMap (.ref ta) (fun v => .successfulOf (fa v)))
 
 /-- `future.FlatMap` with a user function returning a future -/
@@ -188,12 +197,12 @@ def snocV (xs x : Val) : Val :=
   | o => o
 
 /-- `Sequence(futures) = Map(Fold(futures, Successful([]), LiftA2(Seq.Add)), Widen)` -/
-def sequenceAcc : List Pid → FExpr → FExpr
+def sequenceAcc : List Nat → FExpr → FExpr
   | [], acc => acc
   | p :: ps, acc =>
     sequenceAcc ps (.flatMap acc (fun xs => map (.ref p) (fun x => (snocV xs x, []))))
 
-def sequence (ps : List Pid) : FExpr := map (sequenceAcc ps (.successful (.seq []))) (fun l => (l, []))
+def sequence (ps : List Nat) : FExpr := map (sequenceAcc ps (.successful (.seq []))) (fun l => (l, []))
 
 /-- `future.TraverseSeq(seq, fn) = iterator.FoldFuture(seq, [], (acc, v) => Map(fn(v), acc.Add))`;
     `FoldFuture` chains `acc.FlatMap(...)` over an already successful promise. -/
@@ -219,7 +228,7 @@ def bindTry (o : Option (Try Val)) (f : Try Val → Option (Try Val)) : Option (
   | some t => f t
   | none => none
 
-def evalS (σ : Pid → Option (Try Val)) : FExpr → Option (Try Val)
+def evalS (σ : Nat → Option (Try Val)) : FExpr → Option (Try Val)
   | .ref p => σ p
   | .successful v => some (.success v)
   | .failed e => some (.failure e)
